@@ -8,5 +8,9 @@ CONSTANTS
   PastEndRule = "ge"
   CompletionOrder = "rewrite-publish"
   Withdrawals = TRUE
+  ConcurrentWithdrawals = FALSE
+  HostReads = "snapshot"
+  Reannouncements = FALSE
+  ReannounceRule = "atomic"
 CHECK_DEADLOCK FALSE
 CONSTANT CursorVals <- GenCursorValsQuick
